@@ -199,6 +199,10 @@ func agentParams(t *testing.T, tp *simrt.Tape, cfg simrt.Config, sc *agentScenar
 		if i > 0 && chance(tp, 1, 2) {
 			s.Depends = []string{"p0"}
 		}
+		if chance(tp, 1, 3) {
+			// a producer that succeeds at its second attempt: what is captured is what that attempt printed
+			s.RetryLimit = 1
+		}
 		d.Steps = append(d.Steps, s)
 		prods = append(prods, s.Name)
 	}
@@ -250,6 +254,10 @@ func agentParams(t *testing.T, tp *simrt.Tape, cfg simrt.Config, sc *agentScenar
 			s := &sp.Steps[i]
 			if s.Output != "" {
 				s.OutText = genOutText(tp, fmt.Sprintf("k%d%s:", k, s.Name))
+				if s.RetryLimit > 0 {
+					s.FailFirst = 1
+					bump(out, "producer_succeeds_at_second_attempt")
+				}
 			}
 			if s.Name == "f" {
 				isLastRetry := k == ps.NRetries
